@@ -677,6 +677,12 @@ def run_case(case):
                     evaluations += 1
                     obs['runs'] += 1
                     classes.add('failed-negotiation|%s|%s|%s' % (role, how, answer))
+                for idle in (0, 2):
+                    for item in c14.run_failed_negotiation(role, idle, how, 'together', obs14):
+                        violations.append(dict(key=classify('half-open', item), what='[half-open] %s' % item, detail=dict(role=role, how=how, answer='together', idle=idle)))
+                    evaluations += 1
+                    obs['runs'] += 1
+                    classes.add('failed-negotiation|%s|%s|together|%d' % (role, how, idle))
         for role in ('passive', 'active'):
             for pending in ('final-ack', 'half-transfer'):
                 for item in c14.run_silent_after_reply(role, 2, 0, pending, obs14):
